@@ -254,7 +254,7 @@ def _subst_val(v, pairs):
     return v
 
 
-def _symbolic_for(interp, s, frame, state, space):
+def _symbolic_for(interp, s, frame, state, space, promoted=None):
     """apply the summary rule in place (frame/state are updated to the post-state)"""
     _, lo, hi, item_fn = space
     st = state
@@ -308,6 +308,8 @@ def _symbolic_for(interp, s, frame, state, space):
     outs = run_body(env_h, pre_heap, i, [])
     normal = [(fr, st2) for fr, st2, out in outs if out[0] in ("normal", "continue")]
     abnormal = [(fr, st2, out) for fr, st2, out in outs if out[0] not in ("normal", "continue")]
+    if len(normal) > 1:
+        normal = [merge_paths(normal, lenient=promoted is None)]
     if abnormal:
         kinds = sorted({o[2][0] + (":" + str(o[2][1]) if o[2][0] == "raise" else "") for o in abnormal})
         # a body path that raises/returns/breaks: the raise must be infeasible; handled as a side obligation
@@ -317,10 +319,32 @@ def _symbolic_for(interp, s, frame, state, space):
             else:
                 raise EngineError(f"loop body leaves the loop ({kinds}) — needs a written summary")
     if len(normal) != 1:
-        if not normal:
-            raise EngineError("loop body has no normal path")
-        return _summarise_multi(interp, s, frame, st, lo, hi, item_fn, normal, i, scal_h, pre_env, pre_heap, where)
+        raise EngineError("loop body has no normal path")
     fr1, st1 = normal[0]
+    # ---- accumulators initialised with a number (or an integer frame column) that the first iteration turns into an array
+    # (``acc = 0; for ...: acc += <array>``): summarise from the promoted pre-state, base case checked after iteration lo
+    if promoted is None and _promotion_signals(pre_env, pre_heap, scal_h, fr1, st1):
+        side0 = len(st.side)
+        outs_p = run_body(pre_env, pre_heap, A.simp(norm(lo)), [])
+        normal_p = [(fr, st2) for fr, st2, out in outs_p if out[0] in ("normal", "continue")]
+        for fr, st2, out in outs_p:
+            if out[0] == "raise":
+                st.side.append(_side_infeasible(st2, f"loop-body-raises:{out[1]}", where))
+            elif out[0] not in ("normal", "continue"):
+                raise EngineError("loop body leaves the loop in its first iteration")
+        if not normal_p:
+            raise EngineError("first loop iteration has no normal path")
+        fr_p, st_p = merge_paths(normal_p, lenient=True) if len(normal_p) > 1 else normal_p[0]
+        keep_side = st.side[side0:]
+        del st.side[side_mark:]
+        prom = _promote(pre_env, pre_heap, fr_p, st_p, st)
+        if prom is not None:
+            env2, gmap = prom
+            frame.env.clear()
+            frame.env.update(env2)
+            r = _symbolic_for(interp, s, frame, state, space, promoted=(fr_p, st_p, gmap, pre_env, pre_heap))
+            st.side.extend(keep_side)
+            return r
     touched = sorted({sid for sid in st1.heap if sid in pre_heap and st1.heap[sid] is not pre_heap[sid]})
     heap_h = dict(pre_heap)
     arr_h = {}
@@ -346,8 +370,10 @@ def _symbolic_for(interp, s, frame, state, space):
     if arr_h or other_touched:
         outs = run_body(env_h, heap_h, i, [])
         normal = [(fr, st2) for fr, st2, out in outs if out[0] in ("normal", "continue")]
+        if len(normal) > 1:
+            normal = [merge_paths(normal)]
         if len(normal) != 1:
-            return _summarise_multi(interp, s, frame, st, lo, hi, item_fn, normal, i, scal_h, pre_env, pre_heap, where)
+            raise EngineError("loop body has no normal path")
         fr1, st1 = normal[0]
     # collect side obligations of the body run: they were recorded in st.side with pc including i-range → fine.
     iz = i.t
@@ -401,8 +427,10 @@ def _symbolic_for(interp, s, frame, state, space):
             st.side.append(_side_infeasible(st2, f"loop-body-raises:{out[1]}", where))
         elif out[0] not in ("normal", "continue"):
             raise EngineError("loop body leaves the loop under the summary")
+    if len(normal2) > 1:
+        normal2 = [merge_paths(normal2)]
     if len(normal2) != 1:
-        raise EngineError("loop step check: body forks under the summary")
+        raise EngineError("loop step check: no normal path under the summary")
     fr2, st2 = normal2[0]
     env_n, heap_n = state_at(A.simp(sv.add(i2, 1)))
     goals = []
@@ -426,6 +454,28 @@ def _symbolic_for(interp, s, frame, state, space):
     assum = st2.all_assumptions()
     for g in goals:     # one query per carried variable / array cell (small queries)
         st.side.append(_SideGoal("loop-step", g, assum, where))
+    if promoted is not None:
+        # base case of the induction at lo+1: the first iteration executed from the true pre-state gives state(lo+1)
+        fr_p, st_p, gmap, _, _ = promoted
+        env_1, heap_1 = state_at(A.simp(sv.add(lo, 1)))
+        goals1 = []
+        for name in summary_env:
+            if summary_env[name][0] in ("last", "last_obj", "opaque"):
+                continue
+            goals1.extend(_eq_goals(fr_p.env.get(name, _MISSING), env_1[name]))
+        for sid in summary_heap:
+            c = pre_heap[sid]
+            if c.kind == "arr":
+                shape = c.meta["shape"]
+                idx = tuple(sv.fresh_int("y") for _ in shape)
+                rng = [sv.zb(sv.and_(sv.cmp(">=", x, 0), sv.cmp("<", x, d))) for x, d in zip(idx, shape)]
+                real_sid = gmap.get(sid, sid)
+                for g in _eq_goals(st_p.heap[real_sid].data(idx), heap_1[sid].data(idx)):
+                    goals1.append(z3.Implies(z3.And(*rng) if rng else z3.BoolVal(True), g))
+            else:
+                goals1.extend(_cell_eq_goals(st_p.heap[sid], heap_1[sid]))
+        for g in goals1:
+            st.side.append(_SideGoal("loop-init", g, st_p.all_assumptions(), where))
     # init check: state(lo) == pre-state
     env_0, heap_0 = state_at(lo)
     goals0 = []
@@ -443,8 +493,9 @@ def _symbolic_for(interp, s, frame, state, space):
                 goals0.append(z3.Implies(z3.And(*rng) if rng else z3.BoolVal(True), g))
         else:
             goals0.extend(_cell_eq_goals(c, heap_0[sid]))
-    for g in goals0:
-        st.side.append(_SideGoal("loop-init", g, st.all_assumptions(), where))
+    if promoted is None:
+        for g in goals0:
+            st.side.append(_SideGoal("loop-init", g, st.all_assumptions(), where))
     # ---- post-state
     env_f, heap_f = state_at(hi)
     frame.env.clear()
@@ -571,8 +622,8 @@ def _summarise_array(sid, shape, dt, idx, prev, postv, iz, lo, hi, hv_consts, hv
     pre_fn = pre_heap[sid].data
     meta = pre_heap[sid].meta
     idz = [x.t for x in idx]
-    # (1) accumulation: post - prev free of havoc
-    delta = sv.sub(postv, prev)
+    # (1) accumulation: post - prev free of havoc (the difference is taken inside if-then-else alternatives of joined branches)
+    delta = _delta(postv, prev)
     dts = [z3.simplify(t) for t in _terms_of(delta)]
     if not any(_contains_any(t, hv_consts, hv_funcs) for t in dts):
         delta = _subst_val(delta, [])  # simplified
@@ -603,6 +654,17 @@ def _summarise_array(sid, shape, dt, idx, prev, postv, iz, lo, hi, hv_consts, hv
                     return Content("arr", A._memo(fn), meta)
                 return at
     raise EngineError(f"array #{sid}: loop effect is neither an accumulation nor an affine scatter store — needs a written summary")
+
+
+def _delta(postv, prev):
+    postv, prev = norm(postv), norm(prev)
+    if isinstance(postv, Cx) or isinstance(prev, Cx):
+        a, b = sv.as_cx(postv), sv.as_cx(prev)
+        return Cx(_delta(a.re, b.re), _delta(a.im, b.im))
+    if isinstance(postv, SV) and not postv.is_bool and z3.is_app(postv.t) and postv.t.decl().kind() == z3.Z3_OP_ITE:
+        c, x, y = postv.t.children()
+        return ite(sv.wrap(c), _delta(sv.wrap(x), prev), _delta(sv.wrap(y), prev))
+    return sv.sub(postv, prev)
 
 
 def _decompose_store(postv, prev):
@@ -748,8 +810,8 @@ def _rebind_obj(v, st1, st, iz, last):
         c = st1.heap.get(v.sid)
         if c is None:
             return v
-        if v.sid in st.heap and st.heap[v.sid] is c:
-            return v
+        if v.sid in st.heap:
+            return v      # a cell that exists outside the loop body: its content after the loop is the summary's
         fn = c.data
 
         def fn2(idx, fn=fn):
@@ -771,5 +833,271 @@ def _rebind_obj(v, st1, st, iz, last):
     return v
 
 
-def _summarise_multi(interp, s, frame, st, lo, hi, item_fn, normal, i, scal_h, pre_env, pre_heap, where):
-    raise EngineError(f"loop body at {where} forks into {len(normal)} paths — needs a written summary or mergeable branches")
+# ----------------------------------------------------------------------------------------------
+# join of body paths
+
+
+def _common_prefix(lists):
+    n = min(len(x) for x in lists)
+    k = 0
+    while k < n and all(x[k].eq(lists[0][k]) for x in lists[1:]):
+        k += 1
+    return k
+
+
+def _ite_chain(conds, vals):
+    """value of the path whose condition holds; identical alternatives are shared, the most frequent one is the default"""
+    groups = []      # (value, [conds])
+    for c, v in zip(conds, vals):
+        for g in groups:
+            if g[0] is v or (sv.is_scalar(v) and sv.is_scalar(g[0]) and _same_scalar(g[0], v)):
+                g[1].append(c)
+                break
+        else:
+            groups.append((v, [c]))
+    groups.sort(key=lambda g: -len(g[1]))
+    out = groups[0][0]
+    for v, cs in reversed(groups[1:]):
+        cond = sv.wrap(z3.simplify(z3.Or(*cs) if len(cs) > 1 else cs[0]))
+        out = ite(cond, v, out)
+    return out
+
+
+def _same_scalar(a, b):
+    a, b = norm(a), norm(b)
+    if isinstance(a, Cx) or isinstance(b, Cx):
+        if not (isinstance(a, Cx) and isinstance(b, Cx)):
+            return False
+        return _same_scalar(a.re, b.re) and _same_scalar(a.im, b.im)
+    if isinstance(a, SV) and isinstance(b, SV):
+        return a.t.eq(b.t)
+    if isinstance(a, SV) or isinstance(b, SV):
+        return False
+    return type(a) is type(b) and a == b
+
+
+def merge_paths(normal, lenient=False):
+    """join of the normal paths of one body execution (they partition its pre-state by the branch conditions taken and the
+    side conditions assumed): every variable / heap cell becomes an if-then-else over the path conditions"""
+    frames = [fr for fr, _ in normal]
+    states = [st2 for _, st2 in normal]
+    npfx = _common_prefix([st2.pc for st2 in states])
+    conds = [z3.And(*st2.pc[npfx:]) if len(st2.pc) > npfx else z3.BoolVal(True) for st2 in states]
+    base = states[0]
+    m = base.fork()
+    m._lenient_join = lenient
+    m.pc = list(base.pc[:npfx]) + [z3.simplify(z3.Or(*conds))]
+    m.decisions = {k: v for k, v in base.decisions.items() if all(k in s2.decisions and s2.decisions[k][0] == v[0] for s2 in states[1:])}
+    m.fresh = max(s2.fresh for s2 in states)
+    ev = []
+    seen = set()
+    for s2 in states:
+        for e in s2.events:
+            if id(e) not in seen:
+                seen.add(id(e))
+                ev.append(e)
+    m.events = ev
+    t0 = states[0].trace
+    for s2 in states[1:]:
+        if len(s2.trace) != len(t0) or any(a is not b for a, b in zip(s2.trace, t0)):
+            raise EngineError("branches of a loop body differ in their file-write events — needs a written summary")
+    # heap
+    heap = {}
+    sids = []
+    for s2 in states:
+        for sid in s2.heap:
+            if sid not in heap:
+                heap[sid] = None
+                sids.append(sid)
+    m.heap = heap
+    later = []
+    for sid in sids:
+        cells = [s2.heap.get(sid) for s2 in states]
+        present = [c for c in cells if c is not None]
+        if all(c is present[0] for c in present):
+            heap[sid] = present[0]
+            continue
+        if len(present) != len(cells):
+            # allocated on some branches only: reachable only from values of those branches
+            raise EngineError("a cell allocated inside a branch is modified differently on several branches")
+        if present[0].kind == "arr":
+            heap[sid] = _merge_cells(sid, conds, cells, m)
+        else:
+            heap[sid] = present[0]
+            later.append((sid, cells))
+    for sid, cells in later:
+        heap[sid] = _merge_cells(sid, conds, cells, m)
+    # environment
+    env = {}
+    names = []
+    for fr in frames:
+        for k in fr.env:
+            if k not in env:
+                env[k] = None
+                names.append(k)
+    fr_m = Frame(frames[0].module, {}, frames[0].fname)
+    for k in names:
+        vals = [fr.env.get(k, _MISSING) for fr in frames]
+        if any(v is _MISSING for v in vals):
+            continue      # bound on some branches only: unbound after the join (a later read raises NameError)
+        fr_m.env[k] = _merge_vals(conds, vals, m)
+    return fr_m, m
+
+
+def _merge_vals(conds, vals, m):
+    v0 = vals[0]
+    if all(v is v0 for v in vals):
+        return v0
+    if all(sv.is_scalar(norm(v)) for v in vals):
+        return _ite_chain(conds, [norm(v) for v in vals])
+    if all(isinstance(v, A.Arr) for v in vals):
+        if all(v.sid == v0.sid and v.dtype == v0.dtype and _same_view(v.view, v0.view) for v in vals):
+            return v0
+        if all(v.view is None and v.dtype == v0.dtype for v in vals):
+            shapes = [tuple(m.heap[v.sid].meta["shape"]) for v in vals]
+            if all(len(sh) == len(shapes[0]) and all(A.dim_eq_syntactic(a, b) for a, b in zip(sh, shapes[0])) for sh in shapes):
+                fns = [m.heap[v.sid].data for v in vals]
+
+                def fn(idx, fns=fns):
+                    return _ite_chain(conds, [f(idx) for f in fns])
+                sid = m.alloc(Content("arr", A._memo(fn), {"shape": shapes[0]}))
+                return A.Arr(sid, None, v0.dtype)
+    arrs = [v for v in vals if isinstance(v, A.Arr)]
+    if getattr(m, "_lenient_join", False) and arrs and all(isinstance(v, A.Arr) or _is_num(v) for v in vals) and all(v.view is None for v in arrs):
+        # discovery / first-iteration probe only: a numeric accumulator that some branches have already turned into an array
+        # (number (+) array broadcasts to the array's shape, so the number stands for the constant array)
+        shapes = [tuple(m.heap[v.sid].meta["shape"]) for v in arrs]
+        if all(len(sh) == len(shapes[0]) and all(A.dim_eq_syntactic(a, b) for a, b in zip(sh, shapes[0])) for sh in shapes):
+            dt = A.promote(*[v.dtype if isinstance(v, A.Arr) else A.scalar_dtype(norm(v)) for v in vals])
+            fns = [(m.heap[v.sid].data if isinstance(v, A.Arr) else (lambda idx, v=v: norm(v))) for v in vals]
+
+            def fn(idx, fns=fns, dt=dt):
+                return _ite_chain(conds, [A._cast(f(idx), dt) for f in fns])
+            sid = m.alloc(Content("arr", A._memo(fn), {"shape": shapes[0]}))
+            return A.Arr(sid, None, dt)
+    if all(isinstance(v, Ref) for v in vals) and all(v.sid == v0.sid for v in vals):
+        return v0
+    if all(isinstance(v, tuple) for v in vals) and all(len(v) == len(v0) for v in vals):
+        return tuple(_merge_vals(conds, [v[k] for v in vals], m) for k in range(len(v0)))
+    if all(isinstance(v, (str, type(None))) for v in vals) and all(v == v0 for v in vals):
+        return v0
+    raise EngineError("branches of a loop body leave values that cannot be joined — needs a written summary")
+
+
+def _same_view(a, b):
+    if a is None or b is None:
+        return a is b
+    return repr(a.base) == repr(b.base) and repr(a.shape) == repr(b.shape)
+
+
+def _merge_cells(sid, conds, cells, m):
+    c0 = cells[0]
+    if any(c.kind != c0.kind for c in cells):
+        raise EngineError("heap cell changes kind on a branch")
+    if c0.kind == "arr":
+        shapes = [tuple(c.meta["shape"]) for c in cells]
+        if not all(len(sh) == len(shapes[0]) and all(A.dim_eq_syntactic(a, b) for a, b in zip(sh, shapes[0])) for sh in shapes):
+            raise EngineError("array cell changes shape on a branch")
+        fns = [c.data for c in cells]
+
+        def fn(idx, fns=fns):
+            return _ite_chain(conds, [f(idx) for f in fns])
+        return Content("arr", A._memo(fn), c0.meta)
+    if c0.kind in ("dict", "obj"):
+        keys = list(c0.data.keys())
+        if any(list(c.data.keys()) != keys for c in cells):
+            raise EngineError("dictionary/object gets different keys on different branches")
+        return Content(c0.kind, {k: _merge_vals(conds, [c.data[k] for c in cells], m) for k in keys}, c0.meta)
+    if c0.kind == "df":
+        o = c0.data["order"]
+        if any(c.data["order"] != o for c in cells) or any(c.data["cols"][k].sid != c0.data["cols"][k].sid for c in cells for k in o):
+            raise EngineError("DataFrame columns replaced on a branch")
+        return c0
+    if c0.kind == "list":
+        if all(not isinstance(c.data, A.SeqVal) and len(c.data) == len(c0.data) for c in cells):
+            return Content("list", tuple(_merge_vals(conds, [c.data[k] for c in cells], m) for k in range(len(c0.data))), c0.meta)
+    raise EngineError(f"heap cell of kind {c0.kind} modified differently on several branches")
+
+
+# ----------------------------------------------------------------------------------------------
+# promotion of numeric accumulators
+
+
+def _is_num(v):
+    v = norm(v)
+    return isinstance(v, (int, sv.Fraction)) and not isinstance(v, bool)
+
+
+def _promotion_signals(pre_env, pre_heap, scal_h, fr1, st1):
+    for name in scal_h:
+        if _is_num(pre_env.get(name)) and isinstance(fr1.env.get(name), A.Arr):
+            return True
+    for sid, c in pre_heap.items():
+        c1 = st1.heap.get(sid)
+        if c1 is None or c1 is c:
+            continue
+        if c.kind == "dict" and c1.kind == "dict":
+            for k, v in c.data.items():
+                if _is_num(v) and isinstance(c1.data.get(k), A.Arr):
+                    return True
+        if c.kind == "df" and c1.kind == "df" and c.data["order"] == c1.data["order"]:
+            for k in c.data["order"]:
+                a, b = c.data["cols"][k], c1.data["cols"][k]
+                if a.sid != b.sid and a.dtype != b.dtype:
+                    return True
+    return False
+
+
+def _promote(pre_env, pre_heap, fr_p, st_p, st):
+    """ghost pre-state in which every numeric accumulator that the first iteration replaced by a fresh array (number (+) array,
+    integer frame column (+) float array) already is an array of that shape and dtype holding the same values.
+    Returns (env, {ghost sid: sid of the array the first iteration really produced}) or None; st.heap is updated."""
+    gmap = {}
+    env = dict(pre_env)
+
+    def fresh_arr(v):
+        return isinstance(v, A.Arr) and v.view is None and v.sid not in pre_heap
+
+    def ghost_const(c, post):
+        shape = tuple(st_p.heap[post.sid].meta["shape"])
+        val = A._cast(norm(c), post.dtype)
+        sid = st.alloc(Content("arr", (lambda idx, val=val: val), {"shape": shape}))
+        gmap[sid] = post.sid
+        return A.Arr(sid, None, post.dtype)
+
+    for name, v in pre_env.items():
+        post = fr_p.env.get(name)
+        if _is_num(v) and fresh_arr(post):
+            env[name] = ghost_const(v, post)
+    for sid, c in list(pre_heap.items()):
+        c1 = st_p.heap.get(sid)
+        if c1 is None or c1 is c:
+            continue
+        if c.kind == "dict" and c1.kind == "dict" and list(c.data.keys()) == list(c1.data.keys()):
+            d = dict(c.data)
+            ch = False
+            for k, v in c.data.items():
+                if _is_num(v) and fresh_arr(c1.data[k]):
+                    d[k] = ghost_const(v, c1.data[k])
+                    ch = True
+            if ch:
+                st.heap[sid] = Content("dict", d, c.meta)
+        elif c.kind == "df" and c1.kind == "df" and c.data["order"] == c1.data["order"] and A.dim_eq_syntactic(c.data["n"], c1.data["n"]):
+            cols = dict(c.data["cols"])
+            ch = False
+            for k in c.data["order"]:
+                a, b = c.data["cols"][k], c1.data["cols"][k]
+                if a.sid != b.sid and fresh_arr(b) and a.dtype != b.dtype and A.promote(a.dtype, b.dtype) == b.dtype:
+                    r = pre_heap[a.sid].data if a.view is None else None
+                    if r is None:
+                        continue
+                    dt = b.dtype
+                    gs = st.alloc(Content("arr", A._memo(lambda idx, r=r, dt=dt: A._cast(r(idx), dt)), {"shape": tuple(pre_heap[a.sid].meta["shape"])}))
+                    gmap[gs] = b.sid
+                    cols[k] = A.Arr(gs, None, dt)
+                    ch = True
+            if ch:
+                st.heap[sid] = Content("df", {"cols": cols, "order": list(c.data["order"]), "n": c.data["n"]}, c.meta)
+    if not gmap:
+        return None
+    return env, gmap
